@@ -74,6 +74,7 @@ type scen struct {
 
 	accepted, rejectedCorrupt int
 	late                      bool // new contracts are confirmed by a later block only
+	unit                      types.Currency // one pricing unit of the RPC being played
 	second, cutRefused        int
 	fails                     []failure
 }
@@ -238,7 +239,7 @@ func (sc *scen) prices(mut string) (proto4.HostPrices, string) {
 // ---- renter signatures ---------------------------------------------------------
 
 var rsigMuts = []string{"rsig-flip", "rsig-otherkey", "rsig-rev-equal", "rsig-rev-plus2", "rsig-rev-max",
-	"rsig-existing", "rsig-underpay", "rsig-steal", "rsig-wrongroot", "rsig-zero"}
+	"rsig-existing", "rsig-underpay", "rsig-underpay-unit", "rsig-steal", "rsig-wrongroot", "rsig-zero"}
 
 // signRevision returns the signature the renter sends for the revision rev it
 // computed, under mutation mut, together with its term.
@@ -259,10 +260,15 @@ func (sc *scen) signRevision(ct *ctr, key types.PrivateKey, rev types.V2FileCont
 		rev.RevisionNumber = math.MaxUint64
 	case "rsig-existing":
 		rev = old
-	case "rsig-underpay":
+	case "rsig-underpay", "rsig-underpay-unit":
 		d := types.ZeroCurrency
 		if old.RenterOutput.Value.Cmp(rev.RenterOutput.Value) > 0 {
-			d = old.RenterOutput.Value.Sub(rev.RenterOutput.Value).Div64(2)
+			paid := old.RenterOutput.Value.Sub(rev.RenterOutput.Value)
+			d = paid.Div64(2)
+			// one pricing unit of the RPC less (one sector, one 4 KiB of roots)
+			if mut == "rsig-underpay-unit" && !sc.unit.IsZero() && sc.unit.Cmp(paid) < 0 {
+				d = sc.unit
+			}
 		}
 		if d.IsZero() {
 			d = types.NewCurrency64(1)
